@@ -19,6 +19,7 @@ import (
 	"strconv"
 	"time"
 
+	"gitlab.com/gomidi/midi/v2"
 	"gitlab.com/gomidi/midi/v2/smf"
 
 	"verifharness/internal/hx"
@@ -87,6 +88,15 @@ type DoEv struct {
 	Us SBig `json:"us"` // TrackEvent.AbsMicroSeconds
 }
 
+// FiltEv is one event handed out by a TracksReader with a type filter (Only): which filter, which event of the
+// unfiltered iteration it is (track k, position i, both 1-based; i = 0: no such event), and its AbsMicroSeconds.
+type FiltEv struct {
+	F  int  `json:"f"`
+	K  int  `json:"k"`
+	I  int  `json:"i"`
+	Us SBig `json:"us"`
+}
+
 type Query struct {
 	T Big  `json:"t"`
 	R SBig `json:"r"` // SMF.TimeAt(t)
@@ -101,6 +111,7 @@ type MapRec struct {
 	Tracks  []Trk    `json:"tracks"`
 	Queries []Query  `json:"queries"` // sorted by tick
 	Do      [][]DoEv `json:"do"`      // per track, in the order TracksReader.Do handed the events out
+	Filt    []FiltEv `json:"filt"`    // the events handed out under type filters
 	Err     string   `json:"err"`     // "" or what failed (write/read error, panic, timeout)
 	Feat    []string `json:"feat"`
 }
@@ -130,9 +141,10 @@ func tempoMsg(u int) []byte {
 func runMap(rec *MapRec) {
 	rec.Ev = "map"
 	type out struct {
-		q   []Query
-		do  [][]DoEv
-		err string
+		q    []Query
+		do   [][]DoEv
+		filt []FiltEv
+		err  string
 	}
 	ch := make(chan out, 1)
 	go func() {
@@ -187,11 +199,43 @@ func runMap(rec *MapRec) {
 			for i := 0; i < n; i++ {
 				o.do = append(o.do, []DoEv{})
 			}
+			type raw struct {
+				t int64
+				m string
+			}
+			raws := make([][]raw, n)
 			tr.Do(func(te smf.TrackEvent) {
 				if te.TrackNo >= 0 && te.TrackNo < n {
 					o.do[te.TrackNo] = append(o.do[te.TrackNo], DoEv{D: bigOf(uint64(te.Delta)), Us: sbigOf(te.AbsMicroSeconds)})
+					raws[te.TrackNo] = append(raws[te.TrackNo], raw{te.AbsTicks, string(te.Message)})
 				}
 			})
+			// the same file iterated under type filters: a handed-out event is an event of the unfiltered iteration
+			filters := [][]midi.Type{{midi.NoteOnMsg}, {midi.ChannelMsg}, {smf.MetaMsg}, {smf.MetaTempoMsg},
+				{midi.NoteOffMsg, midi.ProgramChangeMsg, midi.ControlChangeMsg}, {smf.MetaTextMsg, midi.NoteOnMsg}}
+			nev := 0
+			for _, t := range raws {
+				nev += len(t)
+			}
+			for fi, f := range filters {
+				if nev > 300 && fi != rec.ID%len(filters) { // long files: one filter each
+					continue
+				}
+				ft := smf.ReadTracksFrom(bytes.NewReader(file)).Only(f...)
+				at := make([]int, n)
+				ft.Do(func(te smf.TrackEvent) {
+					k, i := te.TrackNo, 0
+					if k >= 0 && k < n {
+						for j := at[k]; j < len(raws[k]); j++ {
+							if raws[k][j].t == te.AbsTicks && raws[k][j].m == string(te.Message) {
+								i, at[k] = j+1, j+1
+								break
+							}
+						}
+					}
+					o.filt = append(o.filt, FiltEv{F: fi, K: k + 1, I: i, Us: sbigOf(te.AbsMicroSeconds)})
+				})
+			}
 		})
 		if p != "" {
 			o.err = "panic: " + p
@@ -202,12 +246,17 @@ func runMap(rec *MapRec) {
 	case o := <-ch:
 		rec.Err = o.err
 		rec.Do = o.do
+		rec.Filt = o.filt
+		if rec.Filt == nil {
+			rec.Filt = []FiltEv{}
+		}
 		if o.err == "" {
 			rec.Queries = o.q
 		}
 	case <-time.After(10 * time.Second):
 		rec.Err = "timeout"
 		rec.Do = [][]DoEv{}
+		rec.Filt = []FiltEv{}
 	}
 	if rec.Err != "" { // uniform record: queries keep their ticks, results zero
 		for i := range rec.Queries {
